@@ -76,6 +76,17 @@ class Formula:
                 return sp.Integer(0)
         if t == "call" and k[1] in UNARY and len(k) == 3:
             return UNARY[k[1]](self.conv(k[2]))
+        # Eigen element-wise views and functions (coefficient-wise semantics: each element obeys the scalar formula)
+        if t == "mcall" and len(k) == 3 and k[1].startswith("Eigen::"):
+            short = k[1].split("::")[-1]
+            if short in ("array", "matrix", "eval", "derived"):
+                return self.conv(k[2])
+            if short == "exp":
+                return sp.exp(self.conv(k[2]))
+            if short in ("abs", "cwiseAbs"):
+                return sp.Abs(self.conv(k[2]))
+            if short in ("abs2", "cwiseAbs2"):
+                return sp.Abs(self.conv(k[2])) ** 2
         if t == "global" and k[1] == "Pomerol::I":
             return sp.I
         if t == "cond":
